@@ -2,13 +2,16 @@
 
     Hand-written transcription (executable, no proofs in this file) of
       replica/diff_disk.go   lookup, fullReadAt/ReadAt, fullWriteAt (literal run-state loop and hole
-                             emission), readModifyWrite, WriteAt (three-way split), RemoveIndex
+                             emission), readModifyWrite, WriteAt (three-way split), RemoveIndex;
+                             fullReadAt's runs and ReadAt's three-way split literally for reads issued
+                             while one chain file cannot be read (which run's error is returned)
       replica/backup.go      preload (with userCreatedSnapIndx), Hole / sendToCreateHole
       replica/server.go      UpdateLUNMap, Reload (sets types.ShouldPunchHoles), Open/Close, Resize
       replica/replica.go     createDisk / openLiveChain (maintenance of files, UserCreatedSnap, SnapIndx),
                              Resize, RemoveDiffDisk -> removeDiskNode -> RemoveIndex, PrepareRemoveDisk,
                              revertDisk (new head on the snapshot + Reload(true))
-      sync/sync.go           GetDeleteCandidateChain
+      sync/sync.go           GetDeleteCandidateChain, the loop body of InternalSnapshotCleaner (one pass, the
+                             merge executed or failed by the replica's sync agent)
       sparse-tools sfold.go  FoldFile / coalesce (the child's extents overlay the parent)
 
     Granularity: [K] units per 4 KiB block (K = 8: 512-byte sectors; K = 4096: bytes).  A unit's value is a
@@ -230,6 +233,50 @@ Definition read_at (K : nat) (d : dd) (off len : nat) : list N * dd :=
       let '(blks, d1) := full_read K d (S (b1 - b0)) b0 in
       (firstn len (skipn (off mod K) (concat blks)), d1)
   end.
+
+(** ** ReadAt while the descriptor of chain file [i] is unusable (every pread on d.files[i] fails; FIEMAP
+    and every other file still work).  fullReadAt groups consecutive blocks with the same target into runs
+    and reads run by run: the first run served from file [i] fails and fullReadAt returns `count, err`
+    at that point, having looked up (and memoised) the blocks up to the one that ended the run.  A block
+    whose target is 0 is not read at all.  Returns (failed, state); [i] = 0 means "no fault".  A lookup
+    reads and writes only location[b], so the order of lookups does not matter for the targets. *)
+Definition hit (i t : nat) : bool := negb (i =? 0) && (t =? i).
+
+(** the loop `for i := 1; i < sectors; i++` of fullReadAt; [target] is the file of the run being collected *)
+Fixpoint fr_loop (d : dd) (i target cnt b : nat) : bool * dd :=
+  match cnt with
+  | 0 => (hit i target, d)                                   (* the last run, read after the loop *)
+  | S c =>
+      let '(nt, l) := lookup d b in
+      let d1 := set_loc d l in
+      if nt =? target then fr_loop d1 i target c (S b)        (* readSectors++ *)
+      else if hit i target then (true, d1)                    (* d.read of the finished run: return count, err *)
+      else fr_loop d1 i nt c (S b)
+  end.
+
+Definition full_read_fault (d : dd) (i cnt b : nat) : bool * dd :=
+  match cnt with
+  | 0 => (false, d)                                           (* len(buf) == 0 *)
+  | S c => let '(t, l) := lookup d b in fr_loop (set_loc d l) i t c (S b)
+  end.
+
+(** diffDisk.ReadAt: aligned requests are one fullReadAt; otherwise the first block, the aligned middle
+    and the last block are read by separate fullReadAt calls, each error returned at once *)
+Definition read_at_fault (K : nat) (d : dd) (off len i : nat) : bool * dd :=
+  let so := off mod K in
+  let sc := K - so in
+  let eo := (len + off) mod K in
+  if len =? 0 then (false, d)
+  else if (so =? 0) && (eo =? 0) then full_read_fault d i (len / K) (off / K)
+  else
+    let '(f1, d1) := full_read_fault d i 1 (off / K) in
+    if f1 then (true, d1)
+    else if len <=? sc then (false, d1)
+    else
+      let '(f2, d2) := full_read_fault d1 i ((len - eo - sc) / K) ((off + sc) / K) in
+      if f2 then (true, d2)
+      else if eo =? 0 then (false, d2)
+      else full_read_fault d2 i 1 ((off + len - eo) / K).
 
 (** ** backup.go preload *)
 Record pst := mkpst {
@@ -459,6 +506,23 @@ Definition candidates (d : dd) (checkpoint : option N) : list N :=
         else cand_range d (c - 2) 2                  (* replicaChain[1:indx] = members 2 .. c-1 *)
   end.
 
+(** ** one pass of the loop body of sync.InternalSnapshotCleaner (checkpoint known and equal on both
+    sides, SnapshotRetentionCount = 1).  [victim] is sortedSnapshotList[0] as the implementation chose it
+    (the order by allocated size is not modelled): it is acted on only if it is one of the candidates.
+    PrepareRemoveDisk(victim) returns the actions [coalesce victim -> parent; remove victim]; the
+    coalesce is executed by the replica's sync agent and may fail ([fail]): the action loop is left, the
+    remove action does not run, the snapshot stays in the chain (marked Removed by PrepareRemoveDisk).
+    Without a failure this is [delete].  The result says whether the coalesce was answered with a failure. *)
+Definition clean (d : dd) (cp : option N) (victim : N) (fail : bool) : dd * res :=
+  if negb (existsb (N.eqb victim) (candidates d cp)) then (d, ROk)
+  else if fail then
+    let '(d1, r) := prep_remove d victim in
+    match r with
+    | RErr => (d, ROk)                                        (* "PrepareRemoveDisk failed": next tick *)
+    | ROk => if find_name d victim (nf d) =? 0 then (d, ROk) else (d1, RErr)
+    end
+  else let '(d1, _) := delete d victim in (d1, ROk).
+
 (** ** operations and the step function *)
 Inductive op :=
 | Write (off : nat) (data : list N)
@@ -474,7 +538,9 @@ Inductive op :=
 | SetPunch (b : bool)
 | Resize (nb : nat)
 | UpdateLunMap
-| Candidates (checkpoint : option N).
+| Candidates (checkpoint : option N)
+| ReadFault (off len i : nat)       (* Read while every pread on chain file i fails *)
+| Clean (checkpoint : option N) (victim : N) (fail : bool).   (* one cleaner pass *)
 
 Record out := mkout { ores : res; odata : list N }.
 
@@ -501,6 +567,13 @@ Definition step (fx : bool) (K : nat) (d : dd) (o : op) (ch : list bool) : dd * 
   | Resize nb => let '(d1, r) := resize d nb in (d1, mkout r [])
   | UpdateLunMap => let '(d1, hs) := update_lun_map d in fin d1 hs ch ROk []
   | Candidates cp => (d, mkout ROk (candidates d cp))
+  | ReadFault off len i =>
+      if nblk d * K <? off + len then (d, mkout RErr [])
+      else
+        let '(failed, d1) := read_at_fault K d off len i in
+        if failed then (d1, mkout RErr [])
+        else (d1, mkout ROk (fst (read_at K d off len)))
+  | Clean cp victim fail => let '(d1, r) := clean d cp victim fail in (d1, mkout r (candidates d cp))
   end.
 
 Fixpoint run (fx : bool) (K : nat) (d : dd) (h : list (op * list bool)) : dd * list out :=
